@@ -428,7 +428,7 @@ func (e *Engine) loadAlt(st *State, al PtrAlt) Value {
 		}
 	}
 	if v == nil {
-		return Undef{"load from empty object"}
+		return Undef{"oob"}
 	}
 	return v
 }
@@ -455,7 +455,7 @@ func (e *Engine) loadAltRange(st *State, al PtrAlt, lo, hi int) Value {
 		}
 	}
 	if v == nil {
-		return Undef{"load from empty range"}
+		return Undef{"oob"}
 	}
 	return v
 }
